@@ -574,8 +574,12 @@ type TCPConn struct {
 	reset   bool // reads fail with ECONNRESET
 	// FailWrites: next n writes fail (fault script); <0: all
 	FailWrites int
-	NWrites    int
-	Dialled    bool
+	// PartialFail: the next write longer than this delivers that many bytes, then fails, and the
+	// connection is broken for every later write (fault script); Partial: bytes so delivered
+	PartialFail int
+	Partial     int
+	NWrites     int
+	Dialled     bool
 	driver     bool
 	sync       uint64
 }
@@ -665,6 +669,14 @@ func (c *TCPConn) Write(p []byte) (int, error) {
 		if len(p) > 0 {
 			vrt.RaceReadRange(unsafe.Pointer(&p[0]), len(p))
 		}
+	}
+	if k := c.PartialFail; k > 0 && len(p) > k {
+		// the connection takes the first k bytes, then breaks
+		data := nclone(p[:k])
+		c.peer.rq = append(c.peer.rq, data)
+		addLog(Packet{Proto: "tcp", From: c.laddr.String(), To: c.raddr.String(), Data: data, Conn: c.id, Driver: c.driver})
+		c.PartialFail, c.Partial, c.FailWrites = 0, k, -1
+		return k, errors.New("write: connection reset by peer after a partial write (sim fault)")
 	}
 	data := nclone(p)
 	c.peer.rq = append(c.peer.rq, data)
@@ -862,7 +874,8 @@ func SetDialRule(addr string, refuse, failWrites int) {
 }
 
 // SetDialPlan scripts successive dial attempts towards addr: 0 accept, 1 refuse, 2 accept but
-// every write on the dialling side fails; the last outcome repeats.
+// every write on the dialling side fails, 3 accept but the first write delivers 100 bytes and then
+// fails like every later one; the last outcome repeats.
 //
 //go:norace
 func SetDialPlan(addr string, plan []int) {
@@ -900,7 +913,7 @@ func dial(laddr, raddr *net.TCPAddr) (*TCPConn, error) {
 	key := hostPort(rip, raddr.Port)
 	// every dial attempt is visible in the packet log (even a refused one)
 	addLog(Packet{Proto: "dial", To: key, Driver: Fab.DriverMode})
-	failWrites := 0
+	failWrites, partial := 0, 0
 	if !Fab.DriverMode {
 		for i := range Fab.plans {
 			pl := &Fab.plans[i]
@@ -917,6 +930,8 @@ func dial(laddr, raddr *net.TCPAddr) (*TCPConn, error) {
 				return nil, fmt.Errorf("dial tcp %s: connect: connection refused (sim fault)", key)
 			case 2:
 				failWrites = -1
+			case 3:
+				partial = 100
 			}
 		}
 	}
@@ -957,6 +972,7 @@ func dial(laddr, raddr *net.TCPAddr) (*TCPConn, error) {
 	c := &TCPConn{id: n, laddr: la, raddr: ra, Dialled: true, driver: Fab.DriverMode}
 	if !c.driver {
 		c.FailWrites = failWrites
+		c.PartialFail = partial
 	}
 	s := &TCPConn{id: n + 1, laddr: cloneTCPAddr(ra), raddr: cloneTCPAddr(la), driver: l.driver}
 	c.peer, s.peer = s, c
